@@ -152,6 +152,9 @@ class C13(Check):
             for fk in ev.get("faults", []):
                 v.probe("fault:" + fk)
             if op not in ("solve", "find_another", "find_another_for"):
+                if out == "exception" and ev["exc"].startswith("OSError") and result.get("fs_fired"):
+                    v.probe("io_error_out_of_export")   # the injected disk fault surfaced: legal
+                    continue
                 if out == "exception":
                     v.violate("C13", f"exception/{cc}/{op}", [ev["exc"].split(":")[0]], ev["exc"], ev["seq"], "A")
                     if op == "initialize":
